@@ -13,22 +13,22 @@ M = {
  "C04-m1": ("C04", "vector vartime double-base starts the NAF scan at position 254", "vector backend, unreduced scalar near 2^255 (legacy from_bits or clamped entry points)", {"C04": "caught (v2 trace, scalar 2^255-1)"}),
  "C04-m2": ("C04", "serial Pippenger skips None points instead of returning None", "serial backend, n >= 190, an input point that is None", {"C04": "caught (s64 trace, optional_multiscalar_mul with a None at n = 190)"}),
  "C05-m1": ("C05", "vector vartime double-base starts the NAF scan at position 253", "vector backend selected, unreduced scalar >= 2^254", {"C05": "caught (TraceEquiv: v2 differs from s64)", "C04": "caught"}),
- "C05-m2": ("C05", "AVX2 FieldElement2625x4::new masks the high limb half (same site as C01-m2, found independently)", "AVX2 selected; a point whose |x| has an all-ones 51-bit limb, then negation", {"C05": "missed at first; caught after the boundary-representation points were added to the master script", "C01": "caught", "C03": "caught"}),
+ "C05-m2": ("C05", "AVX2 FieldElement2625x4::new masks the high limb half (same site as C01-m2, found independently)", "AVX2 selected; a point whose |x| has an all-ones 51-bit limb, then negation", {"C05": "MISSED at first; caught after the boundary-representation points were added to the master script", "C01": "caught", "C03": "caught"}),
  "C06-m1": ("C06", "Ristretto decompress: the y = 0 rejection tests u2 instead of y", "the single encoding s = p - 1", {"C06": "caught (rejection class y = 0)"}),
  "C06-m2": ("C06", "group::Group::is_identity for RistrettoPoint compares the Edwards representative", "group feature; an identity element represented by (0,-1) or (+-i, 0)", {"C17": "caught (grp.ris on 4-torsion translates of the identity)", "C06": "not applicable (driver built without the group feature)"}),
  "C07-m1": ("C07", "MontgomeryPoint::to_edwards rejects u = -1 by comparing raw bytes", "the encoding of p - 1 with bit 255 set", {"C07": "caught (u = -1 aliases)"}),
  "C07-m2": ("C07", "ReusableSecret::diffie_hellman reduces the clamped scalar mod l", "reusable_secrets feature; peer point outside the prime-order subgroup", {"C07": "caught (x.dh with small-order / twist peers)"}),
  "C08-m1": ("C08", "raw_sign_prehashed swaps context length and context in the nonce hash only", "digest feature, non-empty context, byte comparison with RFC 8032", {"C08": "caught (sig.sign_prehashed vs specification)"}),
  "C08-m2": ("C08", "from_keypair_bytes accepts an undecodable public half", "a public half that is not a curve point", {"C08": "caught (sig.from_keypair_bytes with undecodable halves)"}),
- "C09-m1": ("C09", "check_scalar fast path accepts S with top byte <= 0x10 (off by one)", "non-canonical S in [l, 2^252 + 2^248): S + l for an honest S below 2^248", {"C09": "missed at first (1 in 16 honest S); caught after the small-S family was added"}),
- "C09-m2": ("C09", "verify_prehashed_strict rejects only R = identity instead of every small-order R", "digest feature, strict prehashed entry point, small-order non-identity R with a mixed-order key", {"C09": "missed at first; caught after the small-order-R triples (pure and prehashed) were added"}),
+ "C09-m1": ("C09", "check_scalar fast path accepts S with top byte <= 0x10 (off by one)", "non-canonical S in [l, 2^252 + 2^248): S + l for an honest S below 2^248", {"C09": "MISSED at first (1 in 16 honest S); caught after the small-S family was added"}),
+ "C09-m2": ("C09", "verify_prehashed_strict rejects only R = identity instead of every small-order R", "digest feature, strict prehashed entry point, small-order non-identity R with a mixed-order key", {"C09": "MISSED at first; caught after the small-order-R triples (pure and prehashed) were added"}),
  "C10-m1": ("C10", "MontgomeryPoint * Scalar skips leading zero bits of the secret scalar", "a reduced unclamped scalar times a Montgomery point", {}),
  "C10-m2": ("C10", "Scalar29::sub loses the optimisation barrier (RUSTSEC-2024-0344 shape); the compiler emits a branch", "32-bit limb build, release profile", {}),
  "C11-m1": ("C11", "serial Pippenger negates the digit -128 in i8", "serial backend, >= 800 terms, a scalar with the radix-256 digit -128, overflow checks on", {}),
  "C11-m2": ("C11", "Scalar29::mul_internal: a deliberate wrapping_add made a checked +", "32-bit limb build with overflow checks, sparse operands (c06 < c11 <= c06 + a8*b8)", {}),
  "C12-m1": ("C12", "one limb of AFFINE_ODD_MULTIPLES_OF_BASEPOINT[37].xy2d changed (u64)", "serial 64-bit table live, NAF(8) digit +-75, non-identity accumulator", {"C12": "caught (const.odd_entry k=37)"}),
  "C12-m2": ("C12", "u32 EIGHT_TORSION[5] duplicates entry 3", "32-bit limb build, a consumer reading index 5", {"C12": "caught (s32 const.public: not i * T[1], only 7 distinct points)"}),
- "C13-m1": ("C13", "the batch transcript absorbs R instead of S: the coefficients do not depend on S", "batch feature; two S values corrupted together with the publicly computable coefficients", {"C13": "missed at first (needs the attacker's knowledge of z); caught after the coefficient-binding check (hook + spec) was added"}),
+ "C13-m1": ("C13", "the batch transcript absorbs R instead of S: the coefficients do not depend on S", "batch feature; two S values corrupted together with the publicly computable coefficients", {"C13": "MISSED at first (needs the attacker's knowledge of z); caught after the coefficient-binding check (hook + spec) was added"}),
  "C13-m2": ("C13", "serial Pippenger digit -128 lands in the wrong bucket (saturating_neg)", "batch feature, serial backend, batch of >= 400 signatures", {}),
  "C14-m1": ("C14", "batch_invert builds its scratch vector with push (grows by doubling)", "batch size n >= 5", {"C14": "caught (mem.run sc.batch_invert n = 8: tainted freed blocks)"}),
  "C14-m2": ("C14", "EphemeralSecret loses ZeroizeOnDrop (wipe moved into diffie_hellman)", "dropping the secret without completing the handshake", {"C14": "caught (mem.drop EphemeralSecret)"}),
@@ -38,11 +38,26 @@ M = {
  "C16-m2": ("C16", "VerifyingKey visitor accepts exactly one trailing element", "serde feature, a sequence format (JSON), input one element too long", {"C16": "caught (serde.de vk, 33-element JSON array)"}),
  "C17-m1": ("C17", "GroupEncoding::from_bytes for RistrettoPoint drops the y = 0 check", "group feature, the single encoding s = p - 1", {"C17": "caught (grp.from_bytes)"}),
  "C17-m2": ("C17", "from_repr_vartime clears bit 255 instead of rejecting it", "group feature, input with bit 255 set and low bits below l", {"C17": "caught (ff.from_repr 2^255, 2^256-1 ...)"}),
+ "C01b-m1": ("C01", "u32 sub_assign adds 2p instead of 16p before subtracting", "32-bit serial backend; a subtrahend with more than one excess bit (still inside the documented b < 1.75)", {"C01": "caught (s32 fe.sub at the limb alphabet's bound)", "C11": "the checked build also panics on it"}),
+ "C01b-m2": ("C01", "IFMA F51x4Reduced::square pre-doubles x0 (madd52 reads only the low 52 bits)", "nightly unstable_avx512 build on an avx512ifma CPU; a reduced limb at or above 2^51", {"C01": "caught (v512 vec.op1 square on limbs produced by reduce at 2^51)"}),
+ "C02b-m1": ("C02", "Scalar52::from_bytes_wide fuses the two Montgomery reductions (exceeds the reducer's input bound)", "low 260 bits within 0.2% of 2^260, large high part: about 1 in 1.2 million random inputs", {"C02": "caught by the reducer-bound family added after reading this change's class (first run: 1 hit of 400; family enlarged to 4000: 3+ hits); AP_MontReduce52 states the bound for the specification"}),
+ "C02b-m2": ("C02", "Scalar52::sub masks (b[i] + borrow) to 52 bits: the borrow chain stops at an all-ones limb", "a subtrahend with an all-ones 52-bit limb and a borrow arriving from below (2^104-1 ...)", {"C02": "caught (systematic special-vs-fixed subtraction pairs)"}),
+ "C03b-m1": ("C03", "serial ProjectivePoint::as_extended returns (X, Y, Z, XY): T inconsistent unless Z = 1", "serial build; result of vartime double-base / Straus used as an operand later", {}),
+ "C03b-m2": ("C03", "IFMA Neg for &CachedPoint uses Shuffle::BADC instead of BACD", "nightly unstable_avx512 build on an avx512ifma CPU; any negative-digit path", {}),
+ "C04b-m1": ("C04", "LookupTableRadix64 scans 1..32 instead of 1..33: select(+-32) returns the identity", "the radix-64 basepoint table and a scalar whose radix-64 recoding has the digit -32", {"C04": "caught (ed.table_static radix 64 on the digit-class scalars)"}),
+ "C04b-m2": ("C04", "serial precomputed Straus starts at the highest non-zero STATIC NAF digit only", "serial backend; a mixed call whose dynamic scalars are longer than every static scalar (or no static scalars)", {"C04": "caught (ed.precomputed with fewer / shorter static scalars)"}),
+ "C06b-m1": ("C06", "double_and_compress_batch replaces a zero e*f*g*h by one before the batch inversion", "the identity held as the 4-torsion representative (+-i, 0): P - decode(encode(P))", {"C06": "caught (batch on identity representatives O2, O3 built by torsion_translate)"}),
+ "C06b-m2": ("C06", "u32 SQRT_AD_MINUS_ONE replaced by the other root (p - value)", "32-bit limb build; from_uniform_bytes / from_hash / random return the negated element", {"C06": "caught in the thorough tier (s32 build)", "C12": "caught in the quick tier (const.dump on s32)", "C05": "caught (s32 differs from the other configurations)"}),
+ "C11b-m1": ("C11", "(round 2, see README)", "(see README)", {}),
+ "C11b-m2": ("C11", "(round 2, see README)", "(see README)", {}),
  "C10-own1": ("C10", "LookupTable::select reads the entry by direct index (own seeded change from the design's appendix, not from a sub-agent)", "any secret digit", {"C10": "caught (lock-step traces of ed.mul_base diverge)"}),
 }
 EXTRA = {}
-if os.path.exists("/tmp/seeded_results.json"):
-    EXTRA = json.load(open("/tmp/seeded_results.json"))
+if os.path.exists("/tmp/seeded_results_auto.json"):
+    auto = json.load(open("/tmp/seeded_results_auto.json"))
+    for sid, d in auto.items():       # measured results fill in only where no curated text exists
+        cur = M.get(sid, (None, None, None, {}))[3]
+        EXTRA[sid] = {k: v for k, v in d.items() if k not in cur}
 rows = []
 for sid, (prop, what, needs, res) in sorted(M.items()):
     d = os.path.join(S, sid)
